@@ -255,6 +255,9 @@ class XCubeMatchingDecoder(BaseDecoder):
                   for z in range(1, 2*Lz, 2)}
         }
 
+        # Work on a copy: the caller's syndrome must not be modified
+        syndrome = np.array(syndrome)
+
         # Remove X stabilizer syndrome and keep it for later
         x_syndrome = self.code.extract_x_syndrome(syndrome)
         syndrome[self.code.x_indices] = 0
